@@ -354,7 +354,7 @@ def bfs(n: int, depth: int, tier: str, seed: int) -> Dict[str, Any]:
     frontier = start[None, :]
     layer_sizes = [1]
     partially_uniform = 0
-    edges_for_eager: List[Tuple[np.ndarray, int]] = []
+    edges_for_eager: List[Any] = []
     for d in range(depth):
         new_rows: List[np.ndarray] = []
         for lo in range(0, len(frontier), CH):
@@ -381,7 +381,9 @@ def bfs(n: int, depth: int, tier: str, seed: int) -> Dict[str, Any]:
             uni = (c6 == c6[..., :1]).all(axis=3).sum(axis=2)
             partially_uniform += int(((uni > 0) & (uni < 6)).sum())
             if len(edges_for_eager) < 64:
-                edges_for_eager += [(par[i], int(k)) for i in range(min(m, 4)) for k in (0, A // 2, A - 1)]
+                edges_for_eager += [(par[i], int(k), child[i, k], int(np.asarray(ts2.step_type)[i, k]),
+                                     float(np.asarray(ts2.reward)[i, k]))
+                                    for i in range(min(m, 4)) for k in (0, A // 2, A - 1)]
             for row in child.reshape(-1, N):
                 key = row.tobytes()
                 if key not in seen:
@@ -438,12 +440,10 @@ def bfs(n: int, depth: int, tier: str, seed: int) -> Dict[str, Any]:
 
     # eager validation
     n_eager = 4 if tier == "quick" else 10
-    for cube, k in pick(edges_for_eager, n_eager, seed):
+    for cube, k, b_child, b_type, b_reward in pick(edges_for_eager, n_eager, seed):
         s, ts = env.step(one_state(cube.reshape(6, n, n)), jnp.asarray(triples[k]))
-        want = cube[refP[k]]
-        sv = bool(R.is_solved(want.reshape(6, n, n)))
-        if not np.array_equal(np.asarray(s.cube).reshape(-1), want) or (int(ts.step_type) == 2) != sv \
-                or float(ts.reward) != float(sv):
+        if not np.array_equal(np.asarray(s.cube).reshape(-1), b_child) or int(ts.step_type) != b_type \
+                or not np.isclose(float(ts.reward), b_reward):
             acc.violation(f"{FAM}:env.step:eager-differs-from-jit-vmap", f"n={n} {describe(n, k)}",
                           dict(kind="cube_edge", n=n, cube=cube.tolist(), flat=int(k)))
         acc.validated += 1
